@@ -156,11 +156,8 @@ def factor(draw, pattern, max_macros=4):
                 b = draw(st.integers(a + 1, len(s_)))
                 if (a, b) == (0, len(s_)):
                     b = len(s_) - 1
-            # the reference is followed by the end of the name or by a character that cannot belong to a macro name
-            if b < len(s_) and (s_[b].isalnum() or s_[b] == "_"):
-                b = len(s_)
-                if a == 0:
-                    a = 1
+            # (the reference may be followed by a name character - `v@opps` - as anywhere else: macro names are pairwise not
+            # contained in one another, so the longer spelling is no other macro's name; F38b)
             macros.append({"name": name, "pattern": s_[a:b]})
             c[i] = {(s_[:a] + name + s_[b:] if k_ == s_ else k_): v_ for k_, v_ in c[i].items()}
         elif kind == "chain":
